@@ -213,3 +213,61 @@ Example fingerprint_env_nonvacuous :
     lookup e' [65] = Some nasty /\ lookup e' [66] = None /\ lookup e' [83; 69; 67; 82; 69; 84] = None /\
     lookup e' s_BOB_CWD = Some [47; 102].
 Proof. eexists. split; [vm_compute; reflexivity|]. vm_compute. repeat split. Qed.
+
+(* ------------------------------------------------------------------ tools as seen by the consumer *)
+(* P1. LD_LIBRARY_PATH / PATH entries are built from the exec path of each used
+   tool *as seen by the consuming step* (getExecPath with the consumer as
+   referrer): exactly <consumer-view exec path>/<lib> for every lib of every
+   used tool, and <consumer-view exec path>/<path> for every used tool. *)
+Theorem library_paths_consumer_view : forall self tools p,
+  In p (library_paths self tools) <->
+  exists n t l, In (n, t) tools /\ In l t.(it_libs) /\ p = os_join (exec_path t.(it_step) (Some self)) l.
+Proof. exact library_paths_consumer_view_proof. Qed.
+
+Theorem tool_paths_consumer_view : forall self tools p,
+  In p (tool_paths self tools) <->
+  exists n t, In (n, t) tools /\ p = os_join (exec_path t.(it_step) (Some self)) t.(it_path).
+Proof. exact tool_paths_consumer_view_proof. Qed.
+
+(* ... each such entry lies inside a dependency that the sandbox mounts
+   read-only at that very path (ties into mount_plan_deps_readonly) ... *)
+Theorem library_path_inside_mounted_tool : forall w sp self tools n t l,
+  has_sandbox sp = true ->
+  In (n, t) tools -> In l t.(it_libs) -> is_abs l = false ->
+  exec_path t.(it_step) (Some self) <> [] ->
+  In (tool_mount self t) sp.(sp_dep_mounts) ->
+  In (os_join (exec_path t.(it_step) (Some self)) l) (library_paths self tools) /\
+  In (dep_mount w (tool_mount self t)) (mount_plan w sp) /\
+  under (exec_path t.(it_step) (Some self)) (os_join (exec_path t.(it_step) (Some self)) l) = true.
+Proof. exact library_path_inside_mounted_tool_proof. Qed.
+
+(* ... and that is what the script finds in LD_LIBRARY_PATH and at the front of PATH. *)
+Theorem ld_library_path_consumer_view : forall dpath preserve cwd sp environ e' self tools,
+  spec_ok cwd sp ->
+  sp.(sp_libs) = library_paths self tools ->
+  sp.(sp_paths) = tool_paths self tools ->
+  script_env dpath preserve cwd sp environ = Some e' ->
+  lookup e' s_LD = Some (join_with [ch_colon] (map (abspath cwd) (library_paths self tools))) /\
+  lookup e' s_PATH = Some (path_value (map (abspath cwd) (tool_paths self tools))
+                                      (getenv (bash_init dpath (proc_env preserve sp environ)) s_PATH)).
+Proof. exact ld_library_path_consumer_view_proof. Qed.
+
+(* a tool built on the host (not sandboxed), consumed (a) by a step inside a sandbox image with automatic
+   stable paths: seen at /bob/ab/workspace; (b) by a host step: seen at its storage path;
+   and a tool built inside the image consumed by a host step: seen at its storage path, not under /bob *)
+Example consumer_view_nonvacuous :
+  let host_tool := {| ir_valid := true; ir_stable := None; ir_sandboxed := false; ir_vid := [97; 98];
+                      ir_storage := [100; 47; 116]; ir_name := [116] |} in
+  let boxed_tool := {| ir_valid := true; ir_stable := None; ir_sandboxed := true; ir_vid := [99; 100];
+                       ir_storage := [100; 47; 98]; ir_name := [98] |} in
+  let inside := {| ir_valid := true; ir_stable := None; ir_sandboxed := true; ir_vid := [49]; ir_storage := [119]; ir_name := [105] |} in
+  let outside := {| ir_valid := true; ir_stable := None; ir_sandboxed := false; ir_vid := [50]; ir_storage := [120]; ir_name := [111] |} in
+  let tl s := [([109], {| it_step := s; it_path := [98; 105; 110]; it_libs := [[108]; [108; 47; 101]] |})] in
+  library_paths inside (tl host_tool) =
+    [[47; 98; 111; 98; 47; 97; 98; 47; 119; 111; 114; 107; 115; 112; 97; 99; 101; 47; 108];
+     [47; 98; 111; 98; 47; 97; 98; 47; 119; 111; 114; 107; 115; 112; 97; 99; 101; 47; 108; 47; 101]] /\
+  library_paths outside (tl host_tool) = [[100; 47; 116; 47; 108]; [100; 47; 116; 47; 108; 47; 101]] /\
+  library_paths outside (tl boxed_tool) = [[100; 47; 98; 47; 108]; [100; 47; 98; 47; 108; 47; 101]] /\
+  exec_path boxed_tool None = [47; 98; 111; 98; 47; 99; 100; 47; 119; 111; 114; 107; 115; 112; 97; 99; 101] /\
+  tool_paths inside (tl host_tool) = [[47; 98; 111; 98; 47; 97; 98; 47; 119; 111; 114; 107; 115; 112; 97; 99; 101; 47; 98; 105; 110]].
+Proof. vm_compute. repeat split. Qed.
